@@ -107,9 +107,21 @@ func c03iScalar(b []byte) *scalar.Scalar {
 }
 
 func c03iExpect(r *h.R, op string, got *EdwardsPoint, want []byte) {
-	r.Eval(1)
+	r.Eval(2)
 	if g := c03iEnc(got); !bytes.Equal(g, want) {
 		r.Fail(op+":wrong-result", "got=%x want=%x", g, want)
+		return
+	}
+	// the encoding reads X, Y, Z only: the extended coordinate must satisfy
+	// T*Z = X*Y (decided on the integers, not with the library's field code)
+	fv := func(e *field.Element) *big.Int {
+		var b [32]byte
+		_ = e.ToBytes(b[:])
+		return ref.FromLE(b[:])
+	}
+	x, y, z, t := fv(&got.inner.X), fv(&got.inner.Y), fv(&got.inner.Z), fv(&got.inner.T)
+	if ref.FMul(t, z).Cmp(ref.FMul(x, y)) != 0 {
+		r.Fail(op+":inconsistent-T", "the result encodes correctly (%x) but T*Z != X*Y: X=%x Y=%x Z=%x T=%x", want, x, y, z, t)
 	}
 }
 
